@@ -21,7 +21,7 @@ def needs(readme):
     return " ".join((m.group(0) if m else readme[:400]).split())[:900]
 
 
-for st in ("staging", "staging2", "staging3", "staging4", "staging5", "staging6", "staging7"):
+for st in ("staging", "staging2", "staging3", "staging4", "staging5", "staging6", "staging7", "staging8"):
     for d in sorted(glob.glob(f"{V}/seeded/{st}/C*")):
         sid = os.path.basename(d)
         if sid not in ver or sid not in mat:
@@ -40,7 +40,7 @@ for st in ("staging", "staging2", "staging3", "staging4", "staging5", "staging6"
         meta = {
             "id": sid,
             "property": sid.split("-")[0],
-            "source": "independent sub-agent given only the property text and a scratch worktree" + (" (second round, after the machine specs were added)" if st == "staging2" else " (third round, after the second-round misses were closed)" if st == "staging3" else " (fourth round)" if st == "staging4" else " (fifth round)" if st == "staging5" else " (sixth round)" if st == "staging6" else " (seventh round, three properties)" if st == "staging7" else ""),
+            "source": "independent sub-agent given only the property text and a scratch worktree" + (" (second round, after the machine specs were added)" if st == "staging2" else " (third round, after the second-round misses were closed)" if st == "staging3" else " (fourth round)" if st == "staging4" else " (fifth round)" if st == "staging5" else " (sixth round)" if st == "staging6" else " (seventh round, three properties)" if st == "staging7" else " (eighth round, four properties)" if st == "staging8" else ""),
             "patch": "patch.diff" + (" (rebased onto the current /repo HEAD; the sub-agent's diff was against an earlier HEAD)" if patch.endswith("rebased.diff") else ""),
             "demonstration": demos,
             "demonstration_crate": v.get("crate"),
